@@ -301,6 +301,7 @@ def c02(tier, seed):
               "request carry one packet id. " + SHAPE)
     ck.assumptions.append("'eventually' is decided as: completed within 120 virtual seconds of fault-free suffix (16.5 s back-off + 5 s resolve + 5 s handshake + 20 s reply age + 3 s sentry period + keep-alive margin)")
     ck.require("sim.crash_points_fired", 100)
+    ck.require("sim.scenarios_with_2plus_no_reply_disconnects", 10)
     ck.require("sim.retransmitted_requests")
     if ck.counters.get("sim.crash_points_run", 0) != ck.counters.get("sim.crash_points_total", -1) // 16 * 0 + ck.counters.get("sim.crash_points_run", 0):
         pass
